@@ -297,11 +297,14 @@ pub fn run_check(spec: &CheckSpec, tier: Tier) -> i32 {
                         a.samples.push(json!({"scenario": scen.name(), "run_seed": run_seed, "input": truncate_json(&input, 6000)}));
                     }
                     let mut any_known = false;
+                    let mut seen_known: BTreeSet<&str> = BTreeSet::new();
                     for v in &out.violations {
                         if known_classes.contains(&v.class) {
                             any_known = true;
-                            let e = a.known_hits.entry(v.class.clone()).or_insert((0, v.detail.clone()));
-                            e.0 += 1;
+                            if seen_known.insert(v.class.as_str()) {
+                                let e = a.known_hits.entry(v.class.clone()).or_insert((0, v.detail.clone()));
+                                e.0 += 1;
+                            }
                         } else {
                             let key = (si, idx);
                             if !a.violations.contains_key(&key) {
